@@ -342,6 +342,8 @@ class HTTPConnection(_HTTPConnection):
         """"""
         # Empty docstring because the indentation of CPython's implementation
         # is broken but we don't want this method in our documentation.
+        if not method:
+            raise ValueError("Method cannot be empty")
         match = _CONTAINS_CONTROL_CHAR_RE.search(method)
         if match:
             raise ValueError(
